@@ -12,6 +12,7 @@ AST nodes (plain tuples):
   ('expr', neg, [(sub, frac_or_term), ...])     sub of the first entry is ignored
 """
 from fractions import Fraction
+import re
 import itertools
 import numpy
 
@@ -618,11 +619,19 @@ def aligned(val, order):
 # ---------------------------------------------------------------------------------------------- core grammar: tokens for the Lean `Src` reader
 
 def src_tokens(node):
-    """prefix tokens of an AST of the `Src` grammar of Model/C19Src.lean (None if the tree uses other constructs:
-    function calls, decimal numbers)"""
+    """prefix tokens of an AST of the `Src` grammar of Model/C19Src.lean (None if the tree is outside it, e.g. `1_0`)"""
     def item(n):
         if n[0] == 'num':
-            return ['num'] + list(n[1]) + [';'] if n[1].isdigit() and n[1].isascii() else None
+            if n[1].isdigit() and n[1].isascii(): return ['num'] + list(n[1]) + [';']
+            m = re.fullmatch(r'(\d*)(?:\.(\d*))?(?:e(-?)(\d+))?', n[1])
+            if not m or not n[1].isascii(): return None
+            ip, fp, neg, ex = m.groups()
+            return (['dec'] + list(ip) + [';'] + (['nofp'] if fp is None else ['fp'] + list(fp) + [';'])
+                    + (['noex'] if ex is None else ['ex', '1' if neg else '0'] + list(ex) + [';']))
+        if n[0] == 'call':
+            if not n[1] or ' ' in n[1]: return None
+            e = expr(n[3])
+            return None if e is None else ['call', n[1], n[2] or '-'] + e
         if n[0] == 'var':
             if not n[1] or ' ' in n[1] or (n[2] and ' ' in n[2]): return None
             return ['var', n[1], n[2] or '-']
